@@ -47,7 +47,13 @@ C08OK(rec) ==
                               /\ \A i \in 1..Len(cs) : <<cs[i][3], cs[i][4]>> = Entry(pre, cs[i][2])
             [] rec.op = "size" -> Dom(post) = Dom(pre) /\ SameBut(pre, post, {}) /\ rec.ret = Cardinality(Dom(pre))
             [] OTHER -> FALSE
-C15OK(rec) == rec.op = "clear" => (C08OK(rec) /\ ToSt(rec.post) = FreshM /\ rec.post.nlive = 0)
+\* C15: clear hands everything over once and leaves a fresh map; "usable like a freshly initialised one" is also
+\* judged on the history that follows: every operation after a clear (nclr = clears so far on this path) meets the
+\* map's contract, frees nothing twice and leaves the blocks clear released untouched (state the struct does not show,
+\* such as a cached node, is only visible this way)
+NoBadFree(rec) == \A j \in 1..Len(rec.ev) : rec.ev[j][1] \notin {"dfree", "badfree", "badrealloc"}
+C15OK(rec) == /\ rec.op = "clear" => (C08OK(rec) /\ ToSt(rec.post) = FreshM /\ rec.post.nlive = 0)
+              /\ rec.nclr > 0 => (C08OK(rec) /\ NoBadFree(rec))
 \* C16: a failing node allocation makes insert return -1, the map holds exactly what it held, nothing leaks
 C16OK(rec) == (rec.op = "insert" /\ rec.fail) => C08OK(rec)
 ModelOps(rec) ==
